@@ -1,9 +1,12 @@
 (* Glue/C13_glue.v — entry point of the extracted runner for C13.
    prog   = VL [VN 0] Ret | VL [VN 1; VN e] Raise | VL [VN 2; VN kind; VB target] Req | VL [VN 3; p; q] Seq
-          | VL [VN 4; VB target; p] Locked | VL [VN 5; p] Try
+          | VL [VN 4; VB target; p] Locked | VL [VN 5; p] Try | VL [VN 6; VN kind; VB target] AReq (asynchronous, dropped)
    answer = VL [ VL [opt severity; opt message] ... ]        (the rpc-errors of the n-th reply; opt x = VL [] | VL [x])
    run (VL [VN 1; prog; VN mode; VL pats; VL [answer...]]) ->
        VL [ VL [ VL [VN kind; VB target] ... ];  result ]
+   run (VL [VN 2; prog; VN mode; VL pats; VL [tree...]]) -> the same, the n-th reply given as the TREE of its <rpc-reply>
+       (tree = VL [VB tag; VL [VL [VB k; VB v]...]; opt text; VB ser; VL [tree...]], as in Glue/C06_glue.v): the rpc-errors
+       of the reply are computed by Model.RpcErrors.parse_errors (RPCReply.parse + RPCError.__init__)
        result = VL [VN 0] normal | VL [VN 1; VN e] body exception
               | VL [VN 2; VN kind; VB target; VN single(1)/aggregate(2); VB severity; VB message; VN n_errors]   *)
 From NC Require Import Model.Base Model.RpcErrors Model.LockCtx.
@@ -19,6 +22,7 @@ Fixpoint dec_prog (v : val) : prog :=
   | VL [VN 3; p; q] => Seq (dec_prog p) (dec_prog q)
   | VL [VN 4; VB t; p] => Locked t (dec_prog p)
   | VL [VN 5; p] => Try (dec_prog p)
+  | VL [VN 6; VN k; VB t] => AReq k t
   | _ => Ret
   end.
 
@@ -29,6 +33,16 @@ Definition dec_err (v : val) : rpc_error :=
   end.
 Definition dec_answer (v : val) : list rpc_error := match v with VL l => map dec_err l | _ => [] end.
 Definition dec_answers (v : val) : list (list rpc_error) := match v with VL l => map dec_answer l | _ => [] end.
+
+Definition dec_attr (v : val) : bytes * bytes := match v with VL [VB k; VB w] => (k, w) | _ => ([], []) end.
+Definition dec_attrs (v : val) : list (bytes * bytes) := match v with VL l => map dec_attr l | _ => [] end.
+Fixpoint dec_node (v : val) : node :=
+  match v with
+  | VL [VB tag; attrs; txt; VB ser; VL kids] => Elem tag (dec_attrs attrs) (dec_optb txt) ser (map dec_node kids)
+  | _ => Elem [] [] None [] []
+  end.
+Definition dec_replies (v : val) : list (list rpc_error) :=
+  match v with VL l => map (fun r => parse_errors (dec_node r)) l | _ => [] end.
 
 Definition optb (o : option bytes) : bytes := match o with Some b => b | None => [] end.
 Definition enc_result (r : result) : val :=
@@ -46,6 +60,9 @@ Definition run (v : val) : val :=
   match v with
   | VL [VN 1; p; VN mode; pats; answers] =>
       let (tr, r) := exec (scripted (dec_answers answers)) (classify (unVBs pats)) mode (dec_prog p) [] in
+      VL [VL (map (fun e => VL [VN (ev_kind e); VB (ev_target e)]) tr); enc_result r]
+  | VL [VN 2; p; VN mode; pats; replies] =>
+      let (tr, r) := exec (scripted (dec_replies replies)) (classify (unVBs pats)) mode (dec_prog p) [] in
       VL [VL (map (fun e => VL [VN (ev_kind e); VB (ev_target e)]) tr); enc_result r]
   | _ => verr 1
   end.
